@@ -86,7 +86,7 @@ func writeEvidence(prop, tier string, seed uint64, engines []Engine, a *aggregat
 	assumptions := []string{
 		"the reference model (slot forest, /verif/sim/model.go) is a faithful reading of the property text; it shares no code with the library",
 		"seeded search samples the scenario space; a clean batch is evidence, not proof",
-		"SHA-512/256 collisions are ignored; leaf hashes are treated as digests: two live leaves never carry the same hash, and no forest instance is given a leaf that carries the bytes (or a 12-byte prefix) of another node's hash, except in the profiles where all leaves share a 27-byte prefix; the hash of a deleted leaf may come back. What works on roots and proofs alone (AddProof, GetProofSubset, GetMissingPositions, stand-alone Verify, Stump.Update, and GetMissingPositions + VerifyPartialProof on a fresh partial forest created from roots) is also asked about states in which a live leaf carries the hash of an internal node or root",
+		"SHA-512/256 collisions are ignored; leaf hashes are treated as digests: two live leaves never carry the same hash, and no leaf shares a 12-byte prefix with another node's hash, except in the profiles where all leaves share a 27-byte prefix; the hash of a deleted leaf may come back. A leaf that carries the whole hash of an internal node or root is given to forest instances only in the C01, C05, C14 and C08 profiles (roots, block application, proof helpers, cached-proof undo: the library satisfies these with such leaves); look-ups, proving, the partial forest's storage and restore are not judged on forests holding such a leaf. What works on roots and proofs alone (AddProof, GetProofSubset, GetMissingPositions, stand-alone Verify, Stump.Update and its update data, Proof.Update/Undo, and GetMissingPositions + VerifyPartialProof on a fresh partial forest created from roots) is asked about states with such a leaf in every profile that has the node kind",
 	}
 	for _, e := range engines {
 		if ea, ok := e.(interface{ Assumptions() []string }); ok {
